@@ -1,7 +1,33 @@
-(* Properties_C13.v -- property theorems only.  C13: monitor notifications are well nested. *)
-From V Require Import Base NameMatch Chart Exec Large LargeLemmas Trace.
+(* Properties_C13.v -- property theorems only.  C13: monitor notifications are a well-nested account of
+   execution.  wf_traceb (Trace.v) recognises the grammar of DESIGN.md Appendix E: every `before` has its
+   `after`, a microstep bracket contains exits, then transitions, then entries (with the <initial>/<history>
+   transitions of an entered state), executable content only inside state/transition/completion brackets,
+   and only event processing, stable and completion notices and step() results outside brackets. *)
+From V Require Import Base NameMatch Chart Exec Large Interp Trace TraceLemmas Fast FastTraceLemmas.
 
-Theorem finished_is_absorbing :
-  forall v xv c l x, l_fin l = true -> large_step v xv c l x = (l, x, RC_FINISHED).
-Proof. exact large_step_finished_absorbing. Qed.
-Print Assumptions finished_is_absorbing.
+(* U: for EVERY document tree, binding, external event history and step bound, the trace of the modelled
+   large engine (repaired content executor) is well nested -- including runs with failing elements,
+   top-level final states and eventless loops cut by the bound *)
+Theorem large_trace_wf : forall lv late t evs fuel,
+  wf_traceb (fst (run_large lv ex_fixed late t evs fuel)) = true.
+Proof. exact run_large_wf. Qed.
+Print Assumptions large_trace_wf.
+
+(* U: the same for the fast engine *)
+Theorem fast_trace_wf : forall late t evs fuel,
+  wf_traceb (fst (run_fast ex_fixed late t evs fuel)) = true.
+Proof. exact run_fast_wf. Qed.
+Print Assumptions fast_trace_wf.
+
+(* the executor as pinned violates it: an error in an element nested in <if> leaves the bracket of the <if> open *)
+Theorem content_bracket_on_nested_error_refuted :
+  exists t evs fuel, wf_traceb (fst (run_large lg_fixed ex_pinned false t evs fuel)) = false.
+Proof. exact content_bracket_on_nested_error_refuted_lemma. Qed.
+Print Assumptions content_bracket_on_nested_error_refuted.
+
+(* every element of executable content, in every datamodel state, emits a balanced bracket sequence and
+   leaves the enclosing brackets untouched *)
+Theorem content_brackets_balanced : forall inst i x s,
+  content_ctx s -> emits x (snd (exec_instr ex_fixed inst i x)) s s.
+Proof. intros. now apply exec_instr_emits. Qed.
+Print Assumptions content_brackets_balanced.
